@@ -84,6 +84,17 @@ namespace enki
 #endif      
     }
 
+    // Full memory barrier: unlike the compiler barriers above it also keeps an earlier store
+    // from being delayed past a later load by the CPU
+    inline void MemoryBarrierFull()
+    {
+       #ifdef _WIN32
+            MemoryBarrier();
+        #else
+            __sync_synchronize();
+        #endif
+    }
+
     // Atomically performs: tmp = *pDest; *pDest += value; return tmp;
     inline int32_t AtomicAdd( volatile int32_t* pDest, int32_t value )
     {
